@@ -74,7 +74,7 @@ fn check_frame(out: &mut Out, st: &mut St, src: &str, frame: &[u8], si: Option<&
     // separate budgets so that encoder frames (needed for the admissibility tie) are never
     // crowded out by the other sources
     let budget = if src == "encoder" { &mut st.cases_encoder } else { &mut st.cases };
-    if *budget < st.max_cases && frame.len() < 2500 {
+    if *budget < st.max_cases && frame.len() < 2500 && o.decoded.as_ref().map(|d| d.iter().map(|c| c.len()).sum::<usize>()).unwrap_or(0) <= MODEL_MAX_SAMPLES {
         *budget += 1;
         out.case(struct_case(frame, si_body.as_deref(), &o, &[("src", esc(src))]));
     }
